@@ -292,6 +292,10 @@ pub fn canon_pair(fam: &str, kmax: i64, rng: &mut Rng) -> (Vec<(Vec<P>, Vec<Vec<
     if fam == "latraw" {
         return gen::latraw_pair(rng);
     }
+    if fam == "tshare" {
+        let (x, y) = gen::tshare_pair(rng);
+        return if rng.chance(1, 2) { (x, y) } else { (y, x) };
+    }
     if fam == "cxsplit" {
         let (x, y) = gen::cxsplit_pair(kmax, rng);
         return if rng.chance(1, 2) { (x, y) } else { (y, x) };
